@@ -47,6 +47,9 @@ def run(pid, tier):
         hist.append([("D", "lib.min." + s, b"x"), ("F", "d/logo.2x." + s, b"y"), ("A", "e/h.v1." + s, "to/h.v1." + s, b"z"), ("D", "k.css." + s, b"w")])
     for s in unknown:
         hist.append([("D", "f." + s, b"x")] + ([("A", "e/noext", "to/n", b"z")] if s == "" else [("F", "d/g." + s, b"y"), ("A", "e/h." + s, "to/h." + s, b"z")]))
+    # add_file_as of files without any suffix whose whole name reads like one: no suffix, hence the generic type
+    # (file and published name always carry the same suffix here: which of the two decides is not something the property fixes)
+    hist.append([("A", "e/css", "css", b"z"), ("A", "e/json", "json", b"j"), ("A", "e/js", "js", b"k"), ("A", "e/svg", "to/svg", b"s")])
     # a stylesheet compiled by add_sass_file is published as <stem>.css: text/css like any other css
     hist.append([("D", "a.css", b"x"), ("S", "scss/m0.scss", "a.css")])
     hist.append([("D", "logo.PNG", b"x"), ("S", "scss/Style.scss", "logo.PNG")])
